@@ -72,16 +72,12 @@ Section C20.
     destruct Q as [(i & _ & S)|Q]; auto. exfalso. eapply no_stray; eauto.
   Qed.
 
-  (** stray_copy_frame (partial, see notes/C20.md): the copy changes nothing
-      but the destination slot, which becomes a stray object; the state keeps
-      every invariant of C05 / C14, so the original and all other objects go on
-      satisfying every theorem of those properties (calls on them return
-      normally or abort for documented reasons, never fault, counts and
-      lifetimes stay exact).
-      Not proved: that the *results* of later calls on the source are equal
-      to those of the run without the copy (commutation of [StrayCopy] with
-      calls that do not mention [dst]). *)
-  Theorem C20_stray_copy_frame_partial ok s src dst s' out :
+  (** stray_copy_frame (1): the copy changes nothing but the destination
+      slot, which becomes a stray object; the source is untouched; the state
+      keeps every invariant of C05 / C14, so all later calls on the original and
+      on every other object return normally or abort for documented reasons,
+      never fault, and counts and lifetimes stay exact *)
+  Theorem C20_stray_copy_keeps_invariants ok s src dst s' out :
     sys s -> mstep ok s (StrayCopy src dst) = Done s' out ->
     exists os, nth_error (objs s) src = Some os /\
       s' = set_objs s (upd (objs s) dst os) /\
@@ -107,6 +103,21 @@ Section C20.
     pose proof (step_outcome (fst l) _ (snd l) I' A') as Q. rewrite L' in Q. specialize (Q pool_small).
     unfold lstep. destruct (step (fst l) false _ (snd l)); auto.
   Qed.
+
+  (** stray_copy_frame (2): every later call that does not mention the
+      destination slot behaves exactly as without the copy: same outcome
+      (return / abort), same results, same events, same final state up to the
+      contents of slot [dst] -- in every state, for both code versions.
+      ([blank dst] overwrites slot [dst] with a fixed dummy object.) *)
+  Theorem C20_stray_copy_frame ok v0 s src dst o :
+    ~ In dst (slots o) ->
+    omap (blank dst) (step ok v0 (stray_copy s src dst) o) = omap (blank dst) (step ok v0 s o).
+  Proof. exact (stray_copy_frame ok v0 s src dst o). Qed.
+
+  (** ... because no call reads or writes a slot it does not mention *)
+  Theorem C20_calls_are_local ok v0 x s o :
+    ~ In x (slots o) -> step ok v0 (blank x s) o = omap (blank x) (step ok v0 s o).
+  Proof. exact (step_local ok v0 x s o). Qed.
 End C20.
 
 (** Non-vacuity: stray copies of an owning shared pointer, a unique pointer
@@ -131,4 +142,6 @@ Proof. vm_compute. auto 10. Qed.
 Print Assumptions C20_stray_aborts.
 Print Assumptions C20_first_argument_guard.
 Print Assumptions C20_wellformed_never_aborts.
-Print Assumptions C20_stray_copy_frame_partial.
+Print Assumptions C20_stray_copy_keeps_invariants.
+Print Assumptions C20_stray_copy_frame.
+Print Assumptions C20_calls_are_local.
